@@ -59,6 +59,12 @@ def instances(tier, rng):
                 always.append({"ign": off, "opt": rng.choice([{"use_min_gen_set_lowerbound": True}, {"optimize_with_guessed_weights": True},
                                                               {"use_subgraph_scanning_lowerbound": True},
                                                               {"use_min_gen_set_lowerbound": True, "use_min_gen_set_lowerbound_partition_constraints": True}])})
+            if off and keep and len(u["nodes"]) >= 4:
+                # ignored flow-carrying edges that leave / enter a scanning window: each window's sub-problem ignores exactly the
+                # listed edges it contains (boundary edges included), or its optimum is no lower bound for the whole
+                always.append({"ign": off, "opt": {"use_subgraph_scanning_lowerbound": True}, "scan_size": rng.choice([1, 2, 3])})
+                always.append({"ign": rng.sample(E, rng.randint(1, len(E) - 1)), "scan_size": rng.choice([1, 2]),
+                               "opt": {"use_subgraph_scanning_lowerbound": True, "optimize_with_greedy": False}})
         if len(u["nodes"]) >= 3:
             keepn = set(rng.choice(u["proutes"]))
             offn = [v for v in u["nodes"] if v not in keepn]
